@@ -19,7 +19,7 @@ import (
 // Opt is one compile configuration of the explorers.
 type Opt struct {
 	CF, RN, FE, RO bool // ConstantFolding, ReduceNesting, FastEvaluation, Reordering
-	Events         int  // 0 off, 1 ReportEvent, 2 Debug
+	Events         int  // 0 off, 1 ReportEvent, 2 Debug, 3 both
 	Undef          int  // 0 all variables registered, 1 all undefined-mode, 2 odd-numbered undefined-mode, 3 all registered but undefined variables allowed
 	Directive      int  // 0 programmatic options; 1.. in-source directive renderings
 	Infix          bool
@@ -63,6 +63,8 @@ func (o Opt) String() string {
 		s += "+report"
 	} else if o.Events == 2 {
 		s += "+debug"
+	} else if o.Events == 3 {
+		s += "+report+debug"
 	}
 	if o.Undef != 0 {
 		s += fmt.Sprintf("+undef%d", o.Undef)
@@ -277,6 +279,9 @@ func (h *Harness) NewConfig(vars []term.VarDecl, o Opt) *eval.Config {
 		cfg.CompileOptions[eval.ReportEvent] = true
 	case 2:
 		cfg.CompileOptions[eval.Debug] = true
+	case 3:
+		cfg.CompileOptions[eval.ReportEvent] = true
+		cfg.CompileOptions[eval.Debug] = true
 	}
 	if o.Infix {
 		cfg.CompileOptions[eval.InfixNotation] = true
@@ -357,6 +362,14 @@ type Fetcher struct {
 	// Hook, if set, is called at the start of every Get / Cached
 	// (scheduling point).
 	Hook func(kind, name string)
+	// FromOp is set while a user operator of the harness reads a variable
+	// through the context it was handed: an unavailable variable then answers
+	// with an error (as the library's map fetcher does) instead of counting as
+	// a protocol breach of the engine.
+	FromOp bool
+	// Nth counts the fetches per variable whose value is a ref.Seq (reset it
+	// before every evaluation).
+	Nth map[int]int
 }
 
 func NewFetcher(h *Harness, vars []term.VarDecl, o Opt) *Fetcher {
@@ -392,9 +405,19 @@ func (f *Fetcher) Get(k eval.VariableKey, s string) (eval.Value, error) {
 		return nil, fmt.Errorf("no such variable %s", s)
 	}
 	if f.Avail != nil && !f.Avail[i] {
+		if f.FromOp {
+			return nil, fmt.Errorf("variable %s is not available", s)
+		}
 		f.H.Protocol = append(f.H.Protocol, fmt.Sprintf("Get(%q) on a variable reported as not cached", s))
 	}
 	v := f.Vals[i]
+	if sq, isSeq := v.(ref.Seq); isSeq {
+		if f.Nth == nil {
+			f.Nth = map[int]int{}
+		}
+		v = sq.At(f.Nth[i])
+		f.Nth[i]++
+	}
 	if e, isErr := v.(error); isErr {
 		f.H.Trace = append(f.H.Trace, ref.Ev{Get: true, Name: s, Err: e})
 		return nil, e
